@@ -4,7 +4,8 @@ C13 — a loop step returns per-item results in item order within its parallelis
 Property theorems only (helper lemmas live in Arca/Proofs/Foreach*.lean).  Everything is stated over the pool model of
 `executeSubWorkflows` + the output assembly of `processInput` (Arca/Model/ForeachPool.lean) and quantifies over EVERY
 item list `P.xs` (any length, also empty), every parallelism `P.p ≥ 1`, every per-item outcome `P.exec` and EVERY
-schedule (= interleaving of the item goroutines, including `cancel` at any point).
+schedule (= interleaving of the item goroutines, including `cancel` = closing the step at any point).  The model follows
+the code after fix 26900e2: an aborted item never touches the semaphore and is recorded as an error of its index.
 
 What is proved: the pool part of the property.  That `P.exec i a` (= `r.workflow.Execute(r.ctx, item)`) depends only on
 the item (runs on a fresh run state and does not see the other items) is property C14 and is validated here by the
@@ -17,22 +18,19 @@ open Arca.Model.ForeachPool
 
 variable {α β : Type}
 
-/-- `parallelism_bound`.  In every reachable state the semaphore never holds more than `parallelism` tokens, and as long
-    as the step's context is alive the number of items inside `Execute` equals the semaphore occupancy — hence never more
-    than `parallelism` sub-workflows run at a time. -/
+/-- `parallelism_bound`.  In EVERY reachable state — also while the step is being closed — the number of items inside
+    `Execute` equals the semaphore occupancy, which never exceeds `parallelism`: never more than `parallelism`
+    sub-workflows run at a time. -/
 theorem parallelism_bound (P : Pool α β) (sched : List Tr) (s : PoolState α β)
     (h : runSched P (init P) sched = some s) :
-    s.sem ≤ P.p ∧ (s.cancelled = false → running s = s.sem ∧ running s ≤ P.p) := by
+    running s = s.sem ∧ s.sem ≤ P.p ∧ running s ≤ P.p := by
   have hI := inv_reachable ⟨sched, h⟩
-  refine ⟨hI.semLe, fun hc => ?_⟩
-  obtain ⟨hr, _⟩ := hI.live hc
-  exact ⟨hr, by rw [hr]; exact hI.semLe⟩
+  exact ⟨hI.semRunning, hI.semLe, by rw [hI.semRunning]; exact hI.semLe⟩
 
 /-- the bound holds in every intermediate state of a schedule, not only at its end -/
 theorem parallelism_bound_prefix (P : Pool α β) (pre rest : List Tr) (s1 s : PoolState α β)
-    (h1 : runSched P (init P) pre = some s1) (_h : runSched P (init P) (pre ++ rest) = some s)
-    (hc : s1.cancelled = false) : running s1 ≤ P.p :=
-  ((parallelism_bound P pre s1 h1).2 hc).2
+    (h1 : runSched P (init P) pre = some s1) (_h : runSched P (init P) (pre ++ rest) = some s) : running s1 ≤ P.p :=
+  (parallelism_bound P pre s1 h1).2.2
 
 /-- `all_items_finish` (1): every schedule is finite — at most `2·n + 1` transitions can ever be taken
     (acquire + finish per item, one cancel). -/
@@ -102,7 +100,7 @@ theorem loop_success_shape (P : Pool α β) (vals : Nat → α → β)
     cases hx : P.xs[i]? with
     | none => rfl
     | some a => simp [hok i a hx, ItemOutcome.okVal]
-  simp [expected, hall, hmap]
+  simp [expected, expectedOf, hall, hmap]
 
 /-- `loop_failure_exact`.  If some item fails (error return or an output other than `success`), then whatever the
     schedule the step output is `failed.error` whose `errors` map has exactly the failing indexes as keys (each with that
@@ -136,7 +134,7 @@ theorem loop_failure_exact (P : Pool α β)
       refine ⟨P.exec i a, ?_, by simp [hno]⟩
       apply List.mem_of_getElem? (i := i)
       rw [outcomes_getElem?, hx]; rfl
-    simp [expected, hall]
+    simp [expected, expectedOf, hall]
   · intro i hi
     have hx : P.xs[i]? = some (P.xs[i]) := List.getElem?_eq_getElem hi
     constructor
@@ -165,25 +163,92 @@ theorem each_item_runs_once (P : Pool α β) (sched : List Tr) (s : PoolState α
     have hph := allExecuted_phase hall (i := i) (by rw [hI.lenPhase]; exact hi)
     rw [hR.once i]; simp [hph]
 
-/-- `abort_release_harmless`.  The deferred `select { case <-sem: case <-r.ctx.Done(): }` of an item that left through
-    the `ctx.Done()` arm WITHOUT having taken a slot may receive from `sem` (a slot release it does not own).  This
-    transition (`abort i true`) exists only when the context is already cancelled; it keeps the channel within its
-    capacity and never blocks anybody: the pool can still be completed.  Together with `parallelism_bound` (which holds
-    for every state in which the context is alive) this shows the stolen release cannot break the bound *before*
-    cancellation.  After cancellation the bound on running items is NOT kept: see `parallelism_exceeded_after_cancel`. -/
+/-- `abort_release_harmless`.  An item that leaves through the `ctx.Done()` arm (possible only once the context is
+    cancelled) never touches the semaphore: occupancy and the number of running items are unchanged (its deferred function
+    releases a slot only if `slotAcquired`), and the pool can still be completed. -/
 theorem abort_release_harmless (P : Pool α β) (hp : 1 ≤ P.p) (sched : List Tr) (s s' : PoolState α β) (i : Nat)
-    (steal : Bool) (h : runSched P (init P) sched = some s) (hs : step P s (.abort i steal) = some s') :
-    s.cancelled = true ∧ s'.sem ≤ P.p ∧
+    (h : runSched P (init P) sched = some s) (hs : step P s (.abort i) = some s') :
+    s.cancelled = true ∧ s'.sem = s.sem ∧ running s' = running s ∧
       ∃ rest s'', runSched P s' rest = some s'' ∧ allDone s'' = true := by
   have hI := inv_reachable ⟨sched, h⟩
   have hI' := inv_step hI hs
-  have hcanc : s.cancelled = true := by
+  obtain ⟨rest, s'', _, hrun, hd⟩ := exists_completion hp (measure s') s' (Nat.le_refl _) hI'
+  have hsem : s'.sem = s.sem ∧ s.cancelled = true := by
     simp only [step] at hs
     split at hs
-    · rename_i hok; exact hok.2.1
+    · rename_i hok; cases hs; exact ⟨rfl, hok.2⟩
     · cases hs
-  obtain ⟨rest, s'', _, hrun, hd⟩ := exists_completion hp (measure s') s' (Nat.le_refl _) hI'
-  exact ⟨hcanc, hI'.semLe, rest, s'', hrun, hd⟩
+  refine ⟨hsem.2, hsem.1, ?_, rest, s'', hrun, hd⟩
+  rw [hI'.semRunning, hI.semRunning, hsem.1]
+
+/-- `aborted_items_are_reported_as_errors`.  In every reachable state an item that left through the `ctx.Done()` arm has
+    no output and the error entry "aborted before execution because the step was closed" under its own index. -/
+theorem aborted_items_are_reported_as_errors (P : Pool α β) (sched : List Tr) (s : PoolState α β)
+    (h : runSched P (init P) sched = some s) (i : Nat) (hi : s.phase[i]? = some .aborted) :
+    s.outputs[i]? = some none ∧ s.errors[i]? = some (some ItemOutcome.abortMsg) :=
+  (inv_reachable ⟨sched, h⟩).abortedRes i hi
+
+/-- `closed_pool_accounts_for_every_item`.  For EVERY complete schedule, the step being closed at any point or not:
+    the output is the declarative output of the effective per-item outcomes (aborted = failed);
+    `success` is reported only if every item was executed and succeeded, and then lists all of them in order;
+    a `failure` mentions every index in exactly one of `errors` / `data` (keys ascending, no others), every aborted
+    index is in `errors`, and `data` holds only results of items that really executed with `success`. -/
+theorem closed_pool_accounts_for_every_item (P : Pool α β) (sched : List Tr) (s : PoolState α β)
+    (h : runSched P (init P) sched = some s) (hd : allDone s = true) :
+    assemble s = expectedOf (effOutcomes P s) ∧
+    (∀ d, assemble s = .success d →
+      allExecuted s = true ∧ P.outcomes.all ItemOutcome.isOk = true ∧ d = P.outcomes.map ItemOutcome.okVal ∧
+        d.length = P.xs.length) ∧
+    (∀ d e, assemble s = .failure d e →
+      (∀ i, (i < P.xs.length ↔ ((∃ m, (i, m) ∈ e) ∨ (∃ v, (i, v) ∈ d))) ∧ ¬ ((∃ m, (i, m) ∈ e) ∧ (∃ v, (i, v) ∈ d))) ∧
+      e.Pairwise (fun x y => x.1 < y.1) ∧ d.Pairwise (fun x y => x.1 < y.1) ∧
+      (∀ i : Nat, s.phase[i]? = some .aborted → (i, ItemOutcome.abortMsg) ∈ e) ∧
+      (∀ i v, (i, v) ∈ d → ∃ a, P.xs[i]? = some a ∧ s.phase[i]? = some .done ∧ P.exec i a = .ok v)) := by
+  have hI := inv_reachable ⟨sched, h⟩
+  have hA := assemble_done hI hd
+  refine ⟨hA, ?_, ?_⟩
+  · intro d hs
+    rw [hA] at hs
+    obtain ⟨hall, hdat⟩ := expectedOf_success hs
+    -- an aborted item is an `err`, so with every effective outcome ok nothing was aborted
+    have hex : allExecuted s = true := by
+      simp only [allExecuted, List.all_eq_true]
+      intro ph hm
+      obtain ⟨i, hi⟩ := List.getElem?_of_mem hm
+      have hlt : i < P.xs.length := lt_of_phase hI hi
+      rcases allDone_phase hd (i := i) (List.getElem?_eq_some_iff.mp hi).1 with hph | hph
+      · rw [hi] at hph; cases hph; simp
+      · have he : (effOutcomes P s)[i]? = some (.err ItemOutcome.abortMsg) := by
+          rw [effOutcomes_getElem?, List.getElem?_eq_getElem hlt]; simp [hph]
+        have := (List.all_eq_true.mp hall) _ (List.mem_of_getElem? he)
+        simp [ItemOutcome.isOk] at this
+    have heq := effOutcomes_of_allExecuted hI hex
+    rw [heq] at hall hdat
+    exact ⟨hex, hall, hdat, by rw [hdat, List.length_map, outcomes_length]; rfl⟩
+  · intro d e hs
+    rw [hA] at hs
+    obtain ⟨_, hdat, herr⟩ := expectedOf_failure hs
+    subst hdat herr
+    refine ⟨fun i => ?_, indexed_sorted _, indexed_sorted _, ?_, ?_⟩
+    · have := keys_partition (effOutcomes P s) i
+      rw [effOutcomes_length] at this
+      exact this
+    · intro i hph
+      have hlt : i < P.xs.length := lt_of_phase hI hph
+      refine (mem_errors_iff _ i _).mpr ⟨.err ItemOutcome.abortMsg, ?_, rfl⟩
+      rw [effOutcomes_getElem?, List.getElem?_eq_getElem hlt]; simp [hph]
+    · intro i v hv
+      have ho := (mem_data_iff _ i v).mp hv
+      rw [effOutcomes_getElem?] at ho
+      cases hx : P.xs[i]? with
+      | none => simp [hx] at ho
+      | some a =>
+        have hlt : i < s.phase.length := by
+          rw [hI.lenPhase]; exact (List.getElem?_eq_some_iff.mp hx).1
+        rcases allDone_phase hd (i := i) hlt with hph | hph
+        · simp [hx, hph] at ho
+          exact ⟨a, rfl, hph, ho⟩
+        · simp [hx, hph] at ho
 
 /-! ### non-vacuity and the concrete schedules -/
 
@@ -195,7 +260,7 @@ def demo : Pool Nat Nat :=
 
 /-- items finish OUT OF ORDER: 1 before 2 before 0 -/
 def demoSched : List Tr :=
-  [.acquire 0, .acquire 1, .finish 1 true, .acquire 2, .finish 2 true, .finish 0 true]
+  [.acquire 0, .acquire 1, .finish 1, .acquire 2, .finish 2, .finish 0]
 
 example : (runSched demo (init demo) demoSched).map assemble = some (.failure [(0, 11), (2, 31)] [(1, "boom")]) := by
   decide
@@ -218,39 +283,26 @@ example : expected ({ demo with exec := fun i a => if i = 0 then .otherOutput "a
 example : (runSched ({ demo with xs := [] } : Pool Nat Nat) (init { demo with xs := [] }) []).map
     (fun s => (allDone s, assemble s)) = some (true, .success []) := by decide
 
-/-- FINDING (model level, low severity): after the step's context is cancelled more than `parallelism` sub-workflow
-    runs can be inside `Execute` at once.  Parallelism 1, three items: item 0 takes the slot; the context is cancelled;
-    item 1 leaves through `ctx.Done()` and its deferred select receives item 0's token; item 2's first select now finds
-    room in `sem` and (Go chooses among ready select arms at random) takes it — items 0 and 2 run together. -/
-theorem parallelism_exceeded_after_cancel :
-    ∃ (P : Pool Nat Nat) (sched : List Tr),
-      P.p = 1 ∧ (runSched P (init P) sched).map (fun s => (running s, s.sem, s.cancelled)) = some (2, 1, true) :=
-  ⟨{ demoOk with p := 1 }, [.acquire 0, .cancel, .abort 1 true, .acquire 2], rfl, by decide⟩
+/-! closing: the schedules that used to break the property (findings of the first round, fixed in /repo by 26900e2) -/
 
-/-- without the steal the same schedule is refused: the slot is still taken -/
+/-- parallelism 1, item 0 holds the slot, the step is closed, item 1 leaves: the slot stays taken, item 2 cannot start
+    next to item 0 (before the fix item 1's deferred select could free item 0's slot) -/
 example : runSched ({ demoOk with p := 1 } : Pool Nat Nat) (init { demoOk with p := 1 })
-    [.acquire 0, .cancel, .abort 1 false, .acquire 2] = none := by decide
+    [.acquire 0, .cancel, .abort 1, .acquire 2] = none := by decide
 
-/-- `aborted_items_leave_no_trace`.  In every reachable state an item that left through the `ctx.Done()` arm has neither
-    an output nor an error entry: `processInput` cannot tell it from an item that has not run yet. -/
-theorem aborted_items_leave_no_trace (P : Pool α β) (sched : List Tr) (s : PoolState α β)
-    (h : runSched P (init P) sched = some s) (i : Nat) (hi : s.phase[i]? = some .aborted) :
-    s.outputs[i]? = some none ∧ s.errors[i]? = some none := by
-  have hI := inv_reachable ⟨sched, h⟩
-  exact hI.notDoneRes i (lt_of_phase hI hi) (by rw [hi]; simp)
+/-- item 0 succeeds, the step is closed, items 1 and 2 never run: the step reports a failure that accounts for every
+    index (before the fix: `success` with data `[11, nil, nil]`) -/
+example : (runSched demoOk (init demoOk) [.acquire 0, .finish 0, .cancel, .abort 1, .abort 2]).map
+    (fun s => (allDone s, s.cancelled, assemble s)) =
+    some (true, true, .failure [(0, 11)] [(1, ItemOutcome.abortMsg), (2, ItemOutcome.abortMsg)]) := by decide
 
-/-- FINDING (confirmed on the real code by `vharness foreach -close`): closed while items are pending, the step can
-    report `outputs.success` with holes — item 0 succeeds, the context is cancelled, items 1 and 2 leave without running;
-    no error was recorded, so `processInput` takes the success branch with `data = [v₀, nil, nil]`, which violates the
-    step's own output schema (the engine then fails the run with a `bug:` error). -/
-theorem closed_pool_reports_success_with_holes :
-    ∃ (P : Pool Nat Nat) (sched : List Tr),
-      (runSched P (init P) sched).map (fun s => (allDone s, s.cancelled, assemble s)) =
-        some (true, true, .success [some 11, none, none]) :=
-  ⟨demoOk, [.acquire 0, .finish 0 true, .cancel, .abort 1 false, .abort 2 false], by decide⟩
+example : (runSched demo (init demo) [.acquire 0, .acquire 1, .finish 1, .finish 0, .cancel, .abort 2]).map
+    (fun s => (allDone s, assemble s)) =
+    some (true, .failure [(0, 11)] [(1, "boom"), (2, ItemOutcome.abortMsg)]) := by decide
 
-/-- the same for the failure branch: the aborted item 2 is mentioned neither in `data` nor in `errors` -/
-example : (runSched demo (init demo) [.acquire 0, .acquire 1, .finish 1 true, .finish 0 true, .cancel, .abort 2 false]).map
-    (fun s => (allDone s, assemble s)) = some (true, .failure [(0, 11)] [(1, "boom")]) := by decide
+/-- Go picks among ready select arms at random: an item may still START after the close as long as a slot is free -/
+example : (runSched demoOk (init demoOk) [.cancel, .acquire 2, .acquire 0, .abort 1, .finish 0, .finish 2]).map
+    (fun s => (allDone s, running s, assemble s)) =
+    some (true, 0, .failure [(0, 11), (2, 31)] [(1, ItemOutcome.abortMsg)]) := by decide
 
 end Arca.Props.C13
